@@ -15,6 +15,7 @@ import json
 from mc import env
 from mc import explorer, walker, ops as O
 from mc.core import R, jhash
+import numpy as np
 import nixio as nix
 from nixio.util import util as nutil
 
@@ -71,6 +72,8 @@ def cases(tier):
     for dday in days:
         out.append({"k": "seconds", "day": list(dday)})
     out.append({"k": "entity-roundtrip"})
+    for auto in (True, False):
+        out.append({"k": "sizes-and-frames", "auto": auto})
     from checks import C12
     for i in range(len(C12.FAULTS)):
         out.append({"k": "fault-then-set", "i": i, "seed": "mini"})
@@ -336,6 +339,78 @@ def run_force_then_set(case, r):
         env.rm(path)
 
 
+def run_sizes_and_frames(case, r):
+    """operations that are NOT in the small-history alphabet: many values assigned to a property, data frame growth and
+    writes, arrays appended many times.  With automatic timestamps off nothing may change any stamp and the switch
+    must still be off afterwards; with them on no creation time moves and no update time goes backwards."""
+    auto = case["auto"]
+    s = O.Session(build=explorer.SEEDS["rich"], auto_ts=auto)
+    try:
+        f = s.f
+        b = f.blocks["blk"]
+        sec = f.sections["sec"]
+        steps = [
+            ("property-assign-100", lambda: setattr(sec.props["pint"], "values", list(range(100)))),
+            ("property-assign-700", lambda: setattr(sec.props["pint"], "values", list(range(700)))),
+            ("property-extend-600", lambda: sec.props["pstr"].extend_values(["v%d" % i for i in range(600)])),
+            ("frame-append-600-rows", lambda: b.data_frames["frame"].append_rows([(i, "r%d" % i, 0.5 * i) for i in range(600)])),
+            ("frame-units", lambda: setattr(b.data_frames["frame"], "units", ["mV", None, "ms"])),
+            ("frame-append_column", lambda: b.data_frames["frame"].append_column(list(range(len(b.data_frames["frame"]))), "extra", datatype=np.int64)),
+            ("frame-write_column", lambda: b.data_frames["frame"].write_column([7] * len(b.data_frames["frame"]), name="n")),
+            ("frame-write_rows", lambda: b.data_frames["frame"].write_rows([(1, "a", 0.5, 9)], [0])),
+            ("array-24-appends", lambda: [b.data_arrays["evt"].append(np.arange(60.0) + 100 * k) for k in range(24)]),
+            ("array-resize", lambda: setattr(b.data_arrays["sig"], "data_extent", (40, 4))),
+            ("create-multi-tag-with-extents", lambda: b.create_multi_tag("mtx", "t", [[0.0, 1.0]], extents=[[1.0, 1.0]])),
+            ("create-frame", lambda: b.create_data_frame("f2", "t", col_dict={"c": int}, data=[(1,), (2,)])),
+        ]
+        for name, fn in steps:
+            env.CLOCK.advance(5)
+            now = env.CLOCK()
+            before = stamps(walker.walk(f, core=True))
+            try:
+                fn()
+            except Exception as e:  # noqa
+                r.viol("C19|%s|raises-%s" % (name, type(e).__name__), "%s raises %s: %s" % (name, type(e).__name__, str(e)[:100]), {})
+                return
+            r.evals += 1
+            r.nontrivial += 1
+            r.transitions += 1
+            after = stamps(walker.walk(f, core=True))
+            for eid, (kind, c0, u0) in before.items():
+                if eid not in after:
+                    continue
+                _k, c1, u1 = after[eid]
+                if c1 != c0:
+                    r.viol("C19|%s|%s|created_at-changed|%s" % (name, "auto-on" if auto else "auto-off", kind),
+                           "%s: created_at of a %s changed from %r to %r" % (name, kind, c0, c1), {})
+                    return
+                if isinstance(u0, int) and isinstance(u1, int) and u1 < u0:
+                    r.viol("C19|%s|updated_at-decreased|%s" % (name, kind), "%s: updated_at of a %s moved backwards" % (name, kind), {})
+                    return
+                if not auto and u1 != u0:
+                    r.viol("C19|%s|auto-off|updated_at-changed|%s" % (name, kind),
+                           "%s with automatic timestamps off: updated_at of a %s changed (%r -> %r)" % (name, kind, u0, u1), {})
+                    return
+            if f.auto_update_timestamps != auto:
+                r.viol("C19|%s|%s|switch-changed" % (name, "auto-on" if auto else "auto-off"),
+                       "%s left the file's automatic-timestamp switch at %r (it was %r)" % (name, f.auto_update_timestamps, auto), {})
+                return
+            # probe: a listed attribute change on an unrelated entity behaves according to the switch
+            env.CLOCK.advance(5)
+            now = env.CLOCK()
+            g = b.groups["grp"]
+            u0 = g.updated_at
+            g.definition = "probe-" + name
+            if (auto and g.updated_at != now) or (not auto and g.updated_at != u0):
+                r.viol("C19|%s|%s|later-attribute-change-stamps-wrongly" % (name, "auto-on" if auto else "auto-off"),
+                       "after %s a definition change on a group moved updated_at %r -> %r (clock %r, automatic timestamps %s)" % (
+                           name, u0, g.updated_at, now, "on" if auto else "off"), {})
+                return
+        r.traces += 1
+    finally:
+        s.close()
+
+
 def run_fault_then_set(case, r):
     """a refused call (fault catalogue of C12) must not disturb the timestamp machinery: afterwards every listed
     attribute change still stamps its own entity with the current time and nothing else"""
@@ -398,6 +473,9 @@ def run_fault_then_set(case, r):
 
 def run_case(case):
     r = R()
+    if case["k"] == "sizes-and-frames":
+        run_sizes_and_frames(case, r)
+        return r
     if case["k"] == "fault-then-set":
         run_fault_then_set(case, r)
         return r
